@@ -67,7 +67,7 @@ def read_case(case: dict) -> dict:
     raised = type(ex).__name__
   g = case["gsi"]
   c = case["cfg"]
-  return {
+  rec = {
     "id": case["id"],
     "gsi": {"dfc": g["dfc"], "dsc": g["dsc"], "cct": g["cct"], "tcp": list(g["tcp"]), "mnr": g["mnr"]},
     "cfg": {"start": c["start"], "start_tc": list(c["start_tc"]), "rows": c["rows"], "rows_n": c["rows_n"],
@@ -76,7 +76,15 @@ def read_case(case: dict) -> dict:
                 "vp": b["vp"], "jc": b["jc"], "cf": b["cf"], "tf": SB.trim_tf(b["tf"])} for b in case["blocks"]],
     "raised": raised,
     "obs": obs,
+    "pair": 0,
   }
+  if case.get("pair"):
+    # the same file with every subtitle number raised by 1000
+    twin = dict(case, blocks=[dict(b, sn=(b["sn"] + 1000) & 0xFFFF) for b in case["blocks"]])
+    twin.pop("pair")
+    r2 = read_case(twin)
+    rec.update(pair=1, raised2=r2["raised"], obs2=r2["obs"])
+  return rec
 
 
 def read_cases(cases):
@@ -243,7 +251,7 @@ def _near_boundaries(rng, fps, base):
   return rng.choice(cands)
 
 
-def random_case(rng, cid):
+def random_case(rng, cid, repeat_sn=False):
   dfc = rng.choice(DFCS)
   fps = SB.NOMINAL[dfc]
   dsc = rng.choice(["0", "1", "1", "2", "2", " "])
@@ -269,7 +277,7 @@ def random_case(rng, cid):
   flags = {"comment": False, "userdata": False, "reserved_ebn": False, "ext": False, "cumulative": False, "early": False,
            "sn_repeat": False, "sn_above_256": False, "multi_sgn": False, "garbage_after_filler": False,
            "set_straddles_start": False}
-  sn = rng.choice([0, 1, 1, 250, 255, 1000, 65530])
+  sn = rng.choice([0, 1, 1, 250, 255, 1000, 65530]) if not repeat_sn else rng.choice([0, 1, 100, 200])
   t = None
   nsub = rng.randint(1, 6)
   multi_sgn = rng.random() < 0.15
@@ -302,8 +310,8 @@ def random_case(rng, cid):
         out.append(user_block())
     if sn > 256:
       flags["sn_above_256"] = True
-    if rng.random() < 0.03:
-      flags["sn_repeat"] = True            # the next subtitle reuses this number
+    if repeat_sn and rng.random() < 0.4:
+      flags["sn_repeat"] = True            # the next subtitle reuses this number (SN-magnitude family only)
     else:
       sn = (sn + 1) & 0xFFFF
     return out, tflags
@@ -373,8 +381,11 @@ def random_case(rng, cid):
       t = tco_n
   if rng.random() < 0.1:
     blocks.append(user_block())
-  return {"id": cid, "family": "random", "gsi": gsi, "cfg": cfg, "blocks": blocks, "via_json": rng.random() < 0.3,
+  case = {"id": cid, "family": "random", "gsi": gsi, "cfg": cfg, "blocks": blocks, "via_json": rng.random() < 0.3,
           "flags": flags}
+  if repeat_sn:
+    case.update(family="sn_magnitude", pair=1)
+  return case
 
 
 # ---------------------------------------------------------------------------------------------------------------
